@@ -824,7 +824,7 @@ func ZZVerifSched() {
 	for _, s := range scs {
 		byName[s.Name] = s
 	}
-	budget := 100 * gotime.Second
+	budget := 200 * gotime.Second
 	if thorough {
 		budget = 18 * gotime.Minute
 	}
